@@ -205,6 +205,11 @@ pub enum SnapFmt {
     /// serialised into a `serde_json::Value` document and its bytes; the bytes are read back into a
     /// `Value` and the generator is deserialised from that (keys arrive owned and in sorted order)
     JsonValue,
+    /// bincode with its own default `Options` (`bincode::options()`): variable-length integers, where signed
+    /// and unsigned values are encoded differently (zig-zag)
+    BincodeVarint,
+    /// bincode options with big-endian fixed-width integers
+    BincodeBigEndian,
     /// TOML text (a format whose integers are signed 64-bit: unsigned words arrive through the
     /// deserializer's i64 path whenever they fit); a value the format cannot express is "not written"
     Toml,
@@ -633,6 +638,14 @@ macro_rules! m_snap {
                 SnapFmt::JsonReader => Some(serde_json::to_vec_pretty($s).expect("json serialize")),
                 SnapFmt::JsonValue => Some(serde_json::to_vec(&serde_json::to_value($s).expect("json to_value")).expect("json serialize")),
                 SnapFmt::Toml => toml::to_string($s).ok().map(|t| t.into_bytes()),
+                SnapFmt::BincodeVarint => {
+                    use bincode::Options;
+                    Some(bincode::options().serialize($s).expect("bincode serialize"))
+                }
+                SnapFmt::BincodeBigEndian => {
+                    use bincode::Options;
+                    Some(bincode::options().with_big_endian().with_fixint_encoding().serialize($s).expect("bincode serialize"))
+                }
                 SnapFmt::JsonFlatten => Some(serde_json::to_vec(&Flat { step: 3, rng: $s, tail: 7 }).expect("json serialize")),
                 SnapFmt::JsonTagged => Some(serde_json::to_vec(&Tagged::Gen($s)).expect("json serialize")),
                 SnapFmt::JsonUntagged => Some(serde_json::to_vec(&Untagged::Gen($s)).expect("json serialize")),
@@ -671,6 +684,14 @@ macro_rules! m_restore {
                 SnapFmt::JsonReader => serde_json::from_reader(ShortReader { data: $bytes, pos: 0 }).map_err(|e| e.to_string()),
                 SnapFmt::JsonValue => serde_json::from_slice::<serde_json::Value>($bytes).and_then(serde_json::from_value).map_err(|e| e.to_string()),
                 SnapFmt::Toml => toml::from_str(std::str::from_utf8($bytes).map_err(|e| e.to_string())?).map_err(|e| e.to_string()),
+                SnapFmt::BincodeVarint => {
+                    use bincode::Options;
+                    bincode::options().deserialize($bytes).map_err(|e| e.to_string())
+                }
+                SnapFmt::BincodeBigEndian => {
+                    use bincode::Options;
+                    bincode::options().with_big_endian().with_fixint_encoding().deserialize($bytes).map_err(|e| e.to_string())
+                }
                 SnapFmt::JsonFlatten => serde_json::from_slice::<Flat<$t>>($bytes).map_err(|e| e.to_string()).and_then(|f| {
                     if f.step == 3 && f.tail == 7 { Ok(f.rng) } else { Err("the embedding struct's own fields came back changed".to_string()) }
                 }),
@@ -1297,6 +1318,14 @@ pub fn restore_core(kind: CoreKind, fmt: SnapFmt, bytes: &[u8]) -> Result<Box<dy
                 SnapFmt::JsonReader => serde_json::from_reader(ShortReader { data: bytes, pos: 0 }).map_err(|e| e.to_string()),
                 SnapFmt::JsonValue => serde_json::from_slice::<serde_json::Value>(bytes).and_then(serde_json::from_value).map_err(|e| e.to_string()),
                 SnapFmt::Toml => toml::from_str(std::str::from_utf8(bytes).map_err(|e| e.to_string())?).map_err(|e| e.to_string()),
+                SnapFmt::BincodeVarint => {
+                    use bincode::Options;
+                    bincode::options().deserialize(bytes).map_err(|e| e.to_string())
+                }
+                SnapFmt::BincodeBigEndian => {
+                    use bincode::Options;
+                    bincode::options().with_big_endian().with_fixint_encoding().deserialize(bytes).map_err(|e| e.to_string())
+                }
                 SnapFmt::JsonFlatten => serde_json::from_slice::<Flat<T>>(bytes).map(|f| f.rng).map_err(|e| e.to_string()),
                 SnapFmt::JsonTagged => serde_json::from_slice::<Tagged<T>>(bytes).map_err(|e| e.to_string()).and_then(|f| match f {
                     Tagged::Gen(g) => Ok(g),
